@@ -75,15 +75,26 @@ fn view(s: &Store, w: &World) -> View {
 }
 
 impl PModel {
+    /// a battery of user instructions (deposit, withdraw, close-balance of an empty position), each on its own
+    /// copy of the state: Some(true) if any of them is refused as protocol-paused, Some(false) if all go through
     fn probe_blocked(&self, s: &Store) -> Option<bool> {
-        let mut t = s.clone();
-        let r = act::apply(&self.w, &mut t, &Action::Deposit { u: 0, b: 0, amt: 5, up_to_limit: None });
-        if r.committed {
-            Some(false)
-        } else if r.code == self.protocol_paused_code {
-            Some(true)
-        } else {
+        let probes = [Action::Deposit { u: 0, b: 0, amt: 5, up_to_limit: None }, Action::Withdraw { u: 0, b: 0, amt: 1, all: false }, Action::CloseBalance { u: 1, b: 0 }];
+        let (mut paused, mut other) = (0, 0);
+        for a in &probes {
+            let mut t = s.clone();
+            let r = act::apply(&self.w, &mut t, a);
+            if r.committed {
+                continue;
+            } else if r.code == self.protocol_paused_code {
+                paused += 1;
+            } else {
+                other += 1;
+            }
+        }
+        if other > 0 {
             None
+        } else {
+            Some(paused > 0)
         }
     }
 }
@@ -238,7 +249,7 @@ impl Model for PModel {
         match self.probe_blocked(&st.s) {
             Some(true) => {
                 if !(v.cflag && v.cx < PAUSE) {
-                    out.push(Violation { clause: "C15.expired_pause_does_not_block".into(), detail: format!("user deposit refused as paused although cache flag={} and {} s since cached start", v.cflag, v.cx) });
+                    out.push(Violation { clause: "C15.expired_pause_does_not_block".into(), detail: format!("a user instruction (deposit, withdraw or close-balance) was refused as paused although cache flag={} and {} s since cached start", v.cflag, v.cx) });
                 }
             }
             Some(false) => {}
@@ -249,7 +260,7 @@ impl Model for PModel {
         t.advance(2 * PAUSE);
         world::refresh_oracles(&mut t, &self.w);
         if self.probe_blocked(&t) != Some(false) {
-            out.push(Violation { clause: "C15.access_regained_within_60min".into(), detail: "user deposit still refused after 3600 s without any admin action".into() });
+            out.push(Violation { clause: "C15.access_regained_within_60min".into(), detail: "a user instruction (deposit, withdraw or close-balance) is still refused after 3600 s without any admin action".into() });
         }
         out
     }
@@ -261,7 +272,13 @@ pub fn model(tier: Tier) -> PModel {
 }
 
 fn build_world_p() -> (World, Store) {
-    world::build_world(&world::WorldSpec::new("P", vec![spec_b6()], &["u0"]))
+    let (w, mut s) = world::build_world(&world::WorldSpec::new("P", vec![spec_b6()], &["u0", "u1"]));
+    // u0 holds a deposit (so that a withdrawal is possible); u1 holds an empty but active position
+    for a in [Action::Deposit { u: 0, b: 0, amt: 1_000_000, up_to_limit: None }, Action::Deposit { u: 1, b: 0, amt: 7, up_to_limit: None }, Action::Withdraw { u: 1, b: 0, amt: 7, all: false }] {
+        let r = act::apply(&w, &mut s, &a);
+        assert!(r.committed, "C15 world: {:?} failed with {}", a, crate::svm::err_name(r.code));
+    }
+    (w, s)
 }
 
 pub fn run(tier: Tier) -> Outcome {
@@ -298,7 +315,7 @@ pub fn run(tier: Tier) -> Outcome {
         "traces_validated_against_impl": rep.transitions,
         "evaluations": rep.transitions,
         "distinct_nontrivial": rep.classes.len(),
-        "rule": "all reachable time-abstract states of the pause machine (flags, counters, now-start, now-last_reset, cached flag and start; clipped beyond the guards' constants) under pause/unpause/permissionless-unpause/propagate and time ticks of 600 s, plus at most k one-second off-grid ticks per path (k=1 quick, 4 thorough); searched to the fixpoint; each transition is the real instruction through marginfi::entry; a user deposit probe is evaluated in every state and 3600 s later",
+        "rule": "all reachable time-abstract states of the pause machine (flags, counters, now-start, now-last_reset, cached flag and start; clipped beyond the guards' constants) under pause/unpause/permissionless-unpause/propagate and time ticks of 600 s, plus at most k one-second off-grid ticks per path (k=1 quick, 4 thorough); searched to the fixpoint; each transition is the real instruction through marginfi::entry; a battery of user probes (deposit, withdraw, close-balance of an empty position) is evaluated in every state and 3600 s later",
         "exhaustive": rep.exhaustive,
         "layers": rep.states_per_layer.len(),
         "max_offgrid_deviations": m.max_devs,
